@@ -32,6 +32,8 @@ mkdir -p "$out/demo"
 while read f; do [ -z "$f" ] && continue; if [ -d "$wt/$f" ]; then rsync -a "$wt/$f" "$out/demo/$(dirname $f)/" ; else mkdir -p "$out/demo/$(dirname $f)"; cp "$wt/$f" "$out/demo/$f"; fi; done < "$T/demo_files.txt"
 rsync -a "$out/demo/" "$T/with/"; rsync -a "$out/demo/" "$T/without/"
 cmd=$(cat "$out/demo_cmd.txt" 2>/dev/null | grep -v '^#' | grep . | tail -1)
+# the agent's command may cd into its own worktree: the demonstration must run in the scratch copies
+cmd=$(echo "$cmd" | sed -E 's#cd +/tmp/wt[^ ;&]* *(&&|;) *##g')
 echo "demo cmd: $cmd" >> "$res"
 (cd "$T/with" && bash -c "$cmd" >"$T/with.log" 2>&1); rcw=$?
 (cd "$T/without" && bash -c "$cmd" >"$T/without.log" 2>&1); rco=$?
